@@ -48,6 +48,10 @@ static void gen_vtk_faults(int seedset, const std::string& vtk, const std::strin
         for (const char* m : MENU) mut(std::string("token-replaced-by-") + m, m, false);
         // index-like tokens (everything but point coordinates): the first values that do not exist / that wrap the integer types the readers use
         if (!coord_token) { for (const std::string& m : {std::to_string(npoints), std::to_string(npoints + 1), std::string("32768"), std::string("65535"), std::string("2147483647"), std::string("2147483648")}) mut("token-replaced-by-" + m + (m == std::to_string(npoints) ? "(=number of points)" : m == std::to_string(npoints + 1) ? "(=number of points+1)" : ""), m, false); } }
+    // data lines reduced to a single token followed by blanks (a count that announces nothing)
+    { size_t ls0 = 0; int li = 0; while (ls0 < vtk.size()) { size_t le = vtk.find('\n', ls0); if (le == std::string::npos) le = vtk.size(); std::string line = vtk.substr(ls0, le - ls0); bool data = ls0 >= body && !line.empty() && (isdigit((unsigned char)line[0]) || line[0] == '-');
+        if (data) for (const char* tok : {"0", "1", "-1", "3"}) { Case c; c.seedset = seedset; c.file = "vtk"; c.where = section_at(vtk, ls0) + "#line" + std::to_string(li); c.xml = xml; c.kind = std::string("line-reduced-to-") + tok; c.vtk = vtk.substr(0, ls0) + tok + "      " + vtk.substr(le); out.push_back(c); }
+        ls0 = le + 1; li++; } }
     // keyword lines: remove / duplicate / move to the end
     size_t ls = 0; while (ls < vtk.size()) { size_t le = vtk.find('\n', ls); if (le == std::string::npos) le = vtk.size(); std::string line = vtk.substr(ls, le - ls); bool kw = !line.empty() && isalpha((unsigned char)line[0]) && ls >= body;
         if (kw) { std::string name = line.substr(0, line.find(' ')); Case c; c.seedset = seedset; c.file = "vtk"; c.where = name; c.xml = xml;
